@@ -528,6 +528,19 @@ def short(spec):
 
 # ------------------------------------------------------------------------------------------------------------------
 
+_STAMP = []
+
+def overlay_stamp():
+    """hash of the source tree the overlay was built from, read once when the check starts"""
+    if not _STAMP:
+        from harness import overlay
+        try:
+            _STAMP.append(open(os.path.join(overlay.OVERLAY, '.stamp')).read().strip())
+        except OSError:
+            _STAMP.append(None)
+    return _STAMP[0]
+
+
 def run_many(payloads, seeds=None, exec_each=False):
     """payloads: list of dicts; returns the results (or {'crash': text}) in order.
     Default: one interpreter per hash seed imports dadi and does nothing else; every payload runs in its own fork of it
@@ -565,6 +578,10 @@ def run_many(payloads, seeds=None, exec_each=False):
         sd, part, par = u
         try:
             r = lib.run_impl('c20_impl.py', {'mode': 'batch', 'jobs': [payloads[i] for i in part], 'par': par}, timeout=3000, env_extra=env_for(sd))
+            if 'results' not in r:
+                return [{'crash': r.get('crash', 'no results')}] * len(part)
+            if r.get('stamp') != overlay_stamp():
+                return [{'crash': 'the interpreter ran overlay stamp %r, the check was started on %r (overlay rebuilt during the run?)' % (r.get('stamp'), overlay_stamp())}] * len(part)
             return r['results']
         except Exception as e:
             return [{'crash': str(e)[-1500:]}] * len(part)
@@ -855,7 +872,10 @@ def run(ctx):
     for c, s, r in zip(xs, xseeds, xres):
         if sig(c) not in ref:
             continue
-        ok = 'crash' not in r and r['calls'][0]['digest'] == ref[sig(c)]['digest']
+        if 'crash' in r:
+            ctx.obligation('hash-seed evaluation of %s ran' % short(c), False, 'harness', r['crash'][-400:])
+            continue
+        ok = r['calls'][0]['digest'] == ref[sig(c)]['digest']
         ctx.case(signature=None)
         if not ok:
             nbad += 1
@@ -984,7 +1004,8 @@ def run(ctx):
     for ch, r in zip(chunks, lres):
         if 'crash' in r:
             ctx.obligation('layout differential ran', False, 'harness', r['crash'][-400:])
-            rep.report(None, 'the interpreter died during the layout differential (a kernel handed a non-contiguous array?)', {'kind': 'layout', 'calls': ch}, unkeyed_id='layout-crash')
+            if 'child process died' in r['crash']:
+                rep.report(None, 'the interpreter died during the layout differential (a kernel handed a non-contiguous array?)', {'kind': 'layout', 'calls': ch}, unkeyed_id='layout-crash')
             continue
         for c, rec in zip(ch, r['calls']):
             fam = op_family(c)
